@@ -8,16 +8,27 @@ if "--root" in extra:
     i = extra.index("--root"); root = extra[i + 1]; del extra[i:i + 2]
 if "--offset" in extra:
     i = extra.index("--offset"); off = int(extra[i + 1]); del extra[i:i + 2]
+only = None
+if "--only" in extra:
+    i = extra.index("--only"); only = extra[i + 1]; del extra[i:i + 2]
 dest = "seeded"
 if "--dest" in extra:
     i = extra.index("--dest"); dest = extra[i + 1]; del extra[i:i + 2]
 src = f"{root}/{cid}/_out"
 V = os.path.dirname(os.path.dirname(os.path.abspath(__file__)))
 for pf in sorted(glob.glob(src + "/patch*.diff")):
-    k = re.search(r"patch(\d+)\.diff", pf).group(1)
+    mm = re.search(r"patch(\d+)\.diff$", pf)
+    if not mm:
+        continue  # patch1a.diff / patch1b.diff: the single sites of a two-site change (copied below)
+    k = mm.group(1)
+    if only and only != k:
+        continue
     d = f"{V}/{dest}/{cid}-{int(k) + off}"
     os.makedirs(d, exist_ok=True)
     shutil.copy(pf, d + "/patch.diff")
+    for f in glob.glob(f"{src}/patch{k}[a-z].diff"):
+        os.makedirs(f"{V}/{dest}/{cid}-{int(k) + off}", exist_ok=True)
+        shutil.copy(f, f"{V}/{dest}/{cid}-{int(k) + off}/site_" + os.path.basename(f)[len("patch" + k):])
     for f in glob.glob(f"{src}/demo{k}*"):
         name = os.path.basename(f)
         if name.endswith("_test.go"):
